@@ -83,13 +83,19 @@ Lemma ld_subset d : exists fn, lookup_directive (pdir_name d) = Some ([0], (true
                                /\ forall s, apply_fn fn [] s = Ok (go_dir_text d s).
 Proof. destruct d; eexists; (split; [vm_compute; reflexivity|intro s; reflexivity]). Qed.
 
-Lemma print_dirs_subset cf w ds st : c_oblig cf = [] ->
-  print_dirs cf w (map pdir_node ds) st = (Ok (map (fun d => (pdir_name d, @nil darg)) ds), st).
+Lemma print_dirs_subset cf w ds v s st : c_oblig cf = [] -> value_string v = Ok s ->
+  print_dirs cf w (map pdir_node ds) v st = (Ok (map (fun d => (pdir_name d, @nil darg)) ds), st).
 Proof.
-  intro Hob. induction ds as [|d r IH]; cbn [map print_dirs pdir_node].
+  intro Hob. revert v s st. induction ds as [|d r IH]; intros v s st Hv; cbn [map print_dirs pdir_node].
   - rewrite Hob. reflexivity.
-  - destruct (ld_subset d) as (fn & Hl & _). rewrite Hl. cbn [check_num_args length mem existsb negb N.of_nat].
-    change (0 =? 0) with true. cbn [orb negb]. unfold mbind at 1. cbn [eval_list ret]. unfold mbind at 1. rewrite IH. reflexivity.
+  - destruct (ld_subset d) as (fn & Hl & Hf). rewrite Hl. cbn [check_num_args length mem existsb negb N.of_nat].
+    change (0 =? 0) with true. cbn [orb negb]. unfold mbind at 1. cbn [eval_list ret].
+    unfold mbind at 1. rewrite Hv. cbn [lift].
+    unfold mbind at 1. unfold print_writes. cbn [map apply_directives]. rewrite Hl.
+    cbn [check_num_args length mem existsb negb N.of_nat]. change (0 =? 0) with true. cbn [orb negb].
+    rewrite Hf. cbn [bind lift].
+    change (negb (2 =? 2) && false) with false. cbn iota.
+    unfold mbind at 1. rewrite (IH (VStr (concat_b [go_dir_text d s])) (concat_b [go_dir_text d s]) st eq_refl). reflexivity.
 Qed.
 
 Lemma apply_directives_subset ds : forall s esc,
@@ -138,12 +144,12 @@ Proof.
     - eexists. split; [reflexivity|]. cbn. apply app_nil_r. }
   destruct Hws as (ws & Hw & Hcat).
   destruct (write_all_ok ws st2) as (st3 & E3 & O3 & C3 & M3 & B3 & L3 & Y3); try congruence.
-  assert (Hrest : (dsx <-- print_dirs cf (walk cf f) (map pdir_node ds);;;
+  assert (Hrest : (dsx <-- print_dirs cf (walk cf f) (map pdir_node ds) v;;;
                    s0 <-- lift (value_string v);;;
                    stx <-- get;;;
                    wsx <-- lift (print_writes (mode stx) dsx s0);;; _ <-- write_all wsx;;; ret VUndef) st2
                   = (Ok VUndef, st3)).
-  { unfold mbind at 1. rewrite (print_dirs_subset cf (walk cf f) ds st2 Hob). unfold mbind at 1. rewrite Hs. cbn [lift].
+  { unfold mbind at 1. rewrite (print_dirs_subset cf (walk cf f) ds v s st2 Hob Hs). unfold mbind at 1. rewrite Hs. cbn [lift].
     unfold mbind at 1. cbn [get]. unfold mbind at 1. rewrite Hw. cbn [lift]. unfold mbind at 1. rewrite E3. reflexivity. }
   exists st3, ws. split; [destruct v; try congruence; exact Hrest|]. repeat split; congruence.
 Qed.
@@ -237,12 +243,12 @@ Proof.
     - eexists. split; [reflexivity|]. cbn. apply app_nil_r. }
   destruct Hws as (ws & Hw & Hcat).
   destruct (write_all_wok ws st2 (wsame_wok _ _ (pres_wsame _ _ P) W)) as (st3 & E3 & W3 & C3 & M3).
-  assert (Hrest : (dsx <-- print_dirs cf (walk cf f) (map pdir_node ds);;;
+  assert (Hrest : (dsx <-- print_dirs cf (walk cf f) (map pdir_node ds) v;;;
                    s0 <-- lift (value_string v);;;
                    stx <-- get;;;
                    wsx <-- lift (print_writes (mode stx) dsx s0);;; _ <-- write_all wsx;;; ret VUndef) st2
                   = (Ok VUndef, st3)).
-  { unfold mbind at 1. rewrite (print_dirs_subset cf (walk cf f) ds st2 Hob). unfold mbind at 1. rewrite Hs. cbn [lift].
+  { unfold mbind at 1. rewrite (print_dirs_subset cf (walk cf f) ds v s st2 Hob Hs). unfold mbind at 1. rewrite Hs. cbn [lift].
     unfold mbind at 1. cbn [get]. unfold mbind at 1. rewrite Hw. cbn [lift]. unfold mbind at 1. rewrite E3. reflexivity. }
   exists st3, ws. split; [destruct v; try congruence; exact Hrest|].
   split; [exact (wrote_l _ _ _ _ (pres_wsame _ _ P) W3)|]. repeat split; congruence.
